@@ -6,6 +6,9 @@ import (
 	"github.com/dapr/kit/zzverif"
 )
 
+// TeeReadCloser: after every Read the writer has received exactly the bytes the consumer has received; the stream ends
+// with EOF after the whole source, keeps answering EOF, and Close closes the source once.
+//
 //verif:harness prop=C16 name=tee_read unwind=12
 func VerifTeeRead() {
 	L := zzverif.Choose("L", 5)
